@@ -44,6 +44,7 @@ class Check:
         self.notes = []
         self.extra = {}
         self.more_instances = {}
+        self._replay_tried = set()
 
     # ----------------------------------------------------------------- registration
     def add_function(self, info):
@@ -89,21 +90,69 @@ class Check:
         for kind, i, o in allo:
             try:
                 txt = smt.to_smt2(o.hyps, o.goal)
+                jo = dict(opts)
+                if getattr(o, "qhyps", None):
+                    jo["full"] = smt.to_smt2(list(o.hyps) + list(o.qhyps), o.goal)
             except Exception as e:
                 raise EngineError("cannot serialise obligation %s: %r" % (o.label, e))
-            jo = dict(opts)
             if kind != "o":
                 jo["cvc5"] = False
                 jo["z3_ms"] = 20000
             jobs.append(((kind, i), txt, jo))
-        res = smt.discharge(jobs)
+        # phase 1a: one representative instance per contract label, short budget (z3 only)
+        label_of = {(kind, i): o.label for kind, i, o in allo}
+        seen, reps, rest = set(), [], []
+        for j in jobs:
+            lab = (j[0][0], label_of[j[0]])
+            (rest if lab in seen else reps).append(j)
+            seen.add(lab)
+        res = smt.discharge([(k, t, dict(o_, phase1=True)) for (k, t, o_) in reps])
+        bad = {label_of[k] for k, v in res.items() if k[0] == "o" and v[0] == "refuted"}
+        # representatives still undecided: full portfolio (cvc5, retries) for them first
+        unk_reps = [j for j in reps if res[j[0]][0] == "unknown"]
+        if unk_reps:
+            if bad:
+                unk_reps = unk_reps[:16]
+            for k, v in smt.discharge(unk_reps).items():
+                secs = dict(res[k][3])
+                for b, t in v[3].items():
+                    secs[b] = secs.get(b, 0.0) + t
+                res[k] = (v[0], v[1], v[2], secs)
+        bad |= {label_of[k] for k, v in res.items() if k[0] == "o" and v[0] == "refuted"}
+        hard = {label_of[k] for k, v in res.items() if v[0] == "unknown"}
+        # phase 1b: the other instances. Instances of labels that are already violated or undecided are not needed
+        # (a label is reported once); once a violation is established the others only get a triage budget.
+        rest = [j for j in rest if label_of[j[0]] not in bad and label_of[j[0]] not in hard]
+        if bad or hard:
+            res.update(smt.discharge([(k, t, dict(o_, phase1=True, z3_ms=2500, triage=True)) for (k, t, o_) in rest]))
+        else:
+            res.update(smt.discharge([(k, t, dict(o_, phase1=True)) for (k, t, o_) in rest]))
+        for j in jobs:
+            if j[0] not in res:
+                res[j[0]] = ("skipped", "another instance of this label is already refuted or undecided", "none", {})
+        n_ref = sum(1 for k, v in res.items() if k[0] == "o" and v[0] == "refuted")
+        unk = [j for j in jobs if res[j[0]][0] == "unknown" and j not in unk_reps]
+        if unk and not (bad or hard):
+            byl = {}
+            for j in unk:
+                byl.setdefault(label_of[j[0]], []).append(j)
+            order = []
+            while any(byl.values()) and len(order) < 48:
+                for lab in list(byl):
+                    if byl[lab]:
+                        order.append(byl[lab].pop(0))
+            for k, v in smt.discharge(order).items():
+                secs = dict(res[k][3])
+                for b, t in v[3].items():
+                    secs[b] = secs.get(b, 0.0) + t
+                res[k] = (v[0], v[1], v[2], secs)
         for kind, i, o in allo:
             v, info, backend, secs = res[(kind, i)]
             o.verdict, o.info, o.backend, o.secs = v, info, backend, secs
 
     # ----------------------------------------------------------------- verdicts
     def requery_without(self, o, pred):
-        hy = list(o.hyps) + [z3.Not(pred)]
+        hy = list(o.hyps) + list(getattr(o, "qhyps", [])) + [z3.Not(pred)]
         r = smt.solve_one((0, smt.to_smt2(hy, o.goal), {}))
         return r[1], r[2]
 
@@ -144,9 +193,11 @@ class Check:
             by_label.setdefault(o.label, []).append(o)
         for label, lst in by_label.items():
             for o in lst:
-                if o.verdict == "proved":
+                if o.verdict in ("proved", "skipped"):
                     continue
                 if o.verdict == "unknown":
+                    if self.try_refute_by_replay(o):
+                        continue
                     self.undecided.append("obligation %s (%s:%s) undecided: %s" % (o.label, o.func, o.line, str(o.info)[:120]))
                     continue
                 self.handle_refuted(o, mine)
@@ -240,6 +291,34 @@ class Check:
             return
         path = self.write_replay(o.label, doc)
         self.violations.append((o.label, path, text, not bool(reproduced)))
+
+    def try_refute_by_replay(self, o):
+        """An undecided obligation is never a violation by itself; but the property's replay / bounded directed search
+        on the real code may turn it into one (a replayed failing input).  Once per label."""
+        if any(v[0] == o.label for v in self.violations):
+            return True
+        if o.label in self._replay_tried:
+            return False
+        self._replay_tried.add(o.label)
+        rep = None
+        for pref, fn in self.replayers.items():
+            if o.label.startswith(pref):
+                rep = fn
+                break
+        if rep is None:
+            return False
+        cand = o.info.get("candidate_model") if isinstance(o.info, dict) else None
+        try:
+            reproduced, text, inp = rep(o, cand or {})
+        except Exception as e:
+            return False
+        if not reproduced:
+            return False
+        doc = {"obligation": o.label, "function": o.func, "line": o.line, "kind": o.kind, "solver_verdict": "unknown (no proof within budget)",
+               "candidate_model": _jsonable(cand), "replayed_on_real_code": True, "replay_input": _jsonable(inp), "replay_output": text}
+        path = self.write_replay(o.label, doc)
+        self.violations.append((o.label, path, text, False))
+        return True
 
     def write_replay(self, label, doc):
         d = os.path.join(VERIF, "replays")
